@@ -315,6 +315,14 @@ def triage(ctx: Ctx, w: Write, kind: str, why: str, schema: Schema):
             # x.attr = y.attr : copies the wrapper's value of the same name onto the wrapped statement; the name is
             # not a child of the statement classes (invisible to to_etree and to equality of declared children)
             return True, "convenience annotation outside parse/convert/write: idempotent copy of the wrapper's like-named value"
+    # 9b. the same annotation moved into a private module-level helper that only such shortcut properties call
+    if kind == "param" and ctx.ci is None and qn.startswith("_") and "." not in qn and w.kind == "attr" and isinstance(w.target, ast.Attribute) \
+            and isinstance(w.stmt, ast.Assign) and isinstance(w.stmt.value, ast.Attribute) and w.stmt.value.attr == w.target.attr \
+            and isinstance(w.stmt.value.value, ast.Name) and w.stmt.value.value.id in ctx.params and mod.startswith(SCOPE_PREFIX):
+        sites = _call_sites(p, qn)
+        ok = bool(sites) and all(f is not None and c is not None and any(isinstance(d, ast.Name) and d.id == "property" for d in f.decorator_list) for _, _, c, f, _ in sites)
+        if ok:
+            return True, "convenience annotation (idempotent copy of the wrapper's like-named value) in a private helper called only from shortcut properties"
     # 10. DateTime.normalize_to_gmt re-registers the handler the decorator already registered
     if mod == TYPES and w.kind == "call:register" and kind == "self":
         call = w.node
